@@ -135,6 +135,12 @@ EVERY = [
     'x=function() return function() end end\n',
     'if a then if b then c() end else d() end\n',
     'f"s" f[[s]] f{} f() f(a,b) a:b() a:b"s" a:b{} \n',
+    # a binary expression in every expression position
+    'for i=a+b,c+d,e*f do end\nfor k in a+b,c..d do end\nwhile a+b do end\n'
+    'repeat until a+b\nif a+b then elseif c+d then end\nif (a+b) c=d+e\n',
+    'x=t[a+b] f(a+b,c*d) t={a+b,[c+d]=e+f,g=h+i} local y,z=a+b,c+d\n'
+    'x,y=a+b,c+d x+=a+b\nreturn a+b,c+d\n',
+    'x=-a+b x=not a+b x=#a+b x=(a+b)+c x=f(a)+b x=a.b+c x=a[b]+c\n',
 ]
 Q = {'_budget': 400}
 CONTEXTS = [
